@@ -107,3 +107,26 @@ pub fn remove_chunks<T: Clone>(items: &[T]) -> Vec<Vec<T>> {
     }
     out
 }
+
+// ------------------------------------------------------------------------------------------
+// Full-trace hash for the determinism proof: every loop-top row, every message and every
+// component-level observation of a run is folded into one number per run index.
+thread_local! {
+    static TRACE: std::cell::Cell<u64> = const { std::cell::Cell::new(0xcbf29ce484222325) };
+}
+pub fn trace_reset() {
+    TRACE.with(|t| t.set(0xcbf29ce484222325));
+}
+pub fn trace_fold(v: u64) {
+    TRACE.with(|t| t.set((t.get() ^ v).wrapping_mul(0x100000001b3).rotate_left(23)));
+}
+pub fn trace_fold_bytes(bs: &[u8]) {
+    let mut h: u64 = 0x9e3779b97f4a7c15;
+    for b in bs {
+        h = (h ^ *b as u64).wrapping_mul(0x100000001b3);
+    }
+    trace_fold(h);
+}
+pub fn trace_get() -> u64 {
+    TRACE.with(|t| t.get())
+}
